@@ -307,6 +307,12 @@ def export_lib(lib: data.Lib) -> vsp.LibInclude:
     return vsp.LibInclude(path=str(lib.path), section=lib.section)
 
 
+def _is_list_of(val, tp: type) -> bool:
+    """Boolean indication of whether `val` is a list whose elements all are `tp`s.
+    (`isinstance` does not accept subscripted generics such as `List[str]`.)"""
+    return isinstance(val, list) and all(isinstance(v, tp) for v in val)
+
+
 def export_save(save: data.Save) -> vsp.Save:
     if isinstance(save.targ, data.SaveMode):
         if save.targ == data.SaveMode.ALL:
@@ -318,14 +324,14 @@ def export_save(save: data.Save) -> vsp.Save:
         return vsp.Save(mode=mode)
     if isinstance(save.targ, Signal):
         signal = save.targ.name
-    elif isinstance(save.targ, List[Signal]):
+    elif _is_list_of(save.targ, Signal):
         signal = ",".join([s.name for s in save.targ])
     elif isinstance(save.targ, str):
         signal = save.targ
-    elif isinstance(save.targ, List[str]):
+    elif _is_list_of(save.targ, str):
         signal = ",".join([s for s in save.targ])
     else:
-        raise TypeError
+        raise TypeError(f"Invalid Save target {save.targ}")
     return vsp.Save(signal=signal)
 
 
